@@ -25,6 +25,7 @@ import (
 type (
 	EIdent  struct{ Name string }
 	EInt    struct{ Val string }
+	EStr    struct{ Val string }
 	EBool   struct{ Val bool }
 	ENil    struct{}
 	EUnary  struct{ Op string; X Expr }
@@ -89,6 +90,14 @@ func lex(src string) ([]ctok, error) {
 			}
 			toks = append(toks, ctok{"int", src[i:j]})
 			i = j
+		case c == '"':
+			// string literal (no escapes)
+			j := strings.IndexByte(src[i+1:], '"')
+			if j < 0 {
+				return nil, fmt.Errorf("unterminated string literal in %q", src)
+			}
+			toks = append(toks, ctok{"str", src[i+1 : i+1+j]})
+			i += j + 2
 		case c == '\'':
 			// character literal 'x'
 			if i+2 < len(src) && src[i+2] == '\'' {
@@ -271,6 +280,8 @@ func (l *lexer) parsePrimary() Expr {
 	switch t.kind {
 	case "int":
 		return &EInt{t.s}
+	case "str":
+		return &EStr{t.s}
 	case "id":
 		switch t.s {
 		case "true":
@@ -425,6 +436,16 @@ func (cs *Contracts) parseFile(path, src string) error {
 				ae.Cond, ae.Body = b.X, b.Y
 			}
 			cur.AtEvals = append(cur.AtEvals, ae)
+		case "on-map-delete":
+			f := strings.Fields(rest)
+			if len(f) < 2 {
+				return fmt.Errorf("%s:%d: on-map-delete <field> [label:] <expr>", path, ln)
+			}
+			cl, err := parseClause(strings.TrimSpace(rest[len(f[0]):]))
+			if err != nil {
+				return fmt.Errorf("%s:%d: %v", path, ln, err)
+			}
+			cur.OnMapDeletes = append(cur.OnMapDeletes, &OnStore{Field: f[0], Label: cl.Label, Expr: cl.Expr, Text: cl.Text})
 		case "on-map-update":
 			f := strings.Fields(rest)
 			if len(f) < 2 {
